@@ -58,6 +58,17 @@ def build(tier, seed):
     tasks.append(Task(f"{PROP}.S.deplist", PROP, "Project.correlate deplist", lambda: __import__("contracts.deps", fromlist=["x"]).deplist_obligations(PROP, lambda: __import__("bounded.c06", fromlist=["x"]).search())))
     tasks.append(Task(f"{PROP}.S.find_used_modules", PROP, "find_used_modules", lambda: __import__("contracts.external", fromlist=["x"]).find_used_modules_recursion(PROP, lambda: __import__("bounded.c07", fromlist=["x"]).search())))
     tasks.append(Task(f"{PROP}.S.find_used_modules.lookup", PROP, "find_used_modules", lambda: __import__("contracts.external", fromlist=["x"]).find_used_modules_lookup(PROP, lambda: __import__("bounded.c06", fromlist=["x"]).search())))
+    def _ext():
+        from bounded import c16
+        t0 = time.time()
+        hit = c16.search(("end_to_end",))
+        r = OR(id=f"{PROP}.Bd.projects.names_re_exported_by_an_external_module", status=REFUTED if hit else PROVED, kind="Bd", role="bounded", target="ford.external_project (export + import, whole runs)",
+               desc="project A exports a module that re-exports two entities under new names; project B, built against A's modules.json, uses them by those names: B's pages link to A's entities",
+               bound="1 project pair", cases=1, seconds=time.time() - t0, backend="enumeration")
+        if hit:
+            r.replay, r.witness = hit, hit["input"]
+        return [r]
+    tasks.append(Task(f"{PROP}.Bd.external", PROP, "external project pair", _ext))
     tasks.append(Task(f"{PROP}.S.own_tables", PROP, "FortranCodeUnit.correlate", lambda: useassoc.own_tables_obligations(PROP, lambda: __import__("bounded.c07", fromlist=["x"]).search())))
     tasks.append(Task(f"{PROP}.S.filter_public", PROP, "FortranCodeUnit.correlate", lambda: useassoc.filter_public_obligation(PROP, lambda: __import__("bounded.c06", fromlist=["x"]).search())))
     tasks.append(Task(f"{PROP}.S.use_loop", PROP, "FortranCodeUnit.correlate", lambda: useassoc.use_loop_obligations(PROP, lambda: __import__("bounded.c06", fromlist=["x"]).search())))
